@@ -200,6 +200,7 @@ pub fn run(scn: &Scn, ctx: &Ctx, scratch: &Path) {
             // provided the recording lasts long enough for its configured repetition delay
             let d_us = match scn.sender.spec.fdt_carousel {
                 CarouselSpec::DelayMs(d) | CarouselSpec::IntervalMs(d) => d * 1000,
+                CarouselSpec::DelayMax | CarouselSpec::IntervalMax => u64::MAX / 8,
             };
             let left = trace.pkts.last().map(|p| p.t_us).unwrap_or(0).saturating_sub(trace.pkts[j].t_us);
             // one FDT round = its repetition delay + the time one transmission takes on this poll schedule
